@@ -280,7 +280,7 @@ func TestEnumShortStrings(t *testing.T) {
 // ---- longer strings -----------------------------------------------------------------------
 
 var long = ev.NewCheck("C08", "strings-4-64",
-	"rapid: byte strings of length 4..64 biased to start with each status class (channel kinds, F0..F7, real-time, FF + meta type + VLQ length + payload with a declared text length <= 2^16; FF + type + a run of 1..20 continuation bytes as length field; complete frames wrapped in real-time bytes; meta events whose type byte is a status byte and whose payload ends in F7/FF; two frames glued together; runs of one byte class; universal sysex messages such as MTC full frame and MMC commands; text and sequencer-data metas of 1..400 bytes made of one byte class: UTF-8 continuation bytes, lead bytes, one repeated byte, multi-byte runes cut inside a rune, ASCII), plus every message produced by the meta constructors, by MetaUndefined(any type, payload) and by the reader on byte-level generated files; same oracle; non-trivial = first byte >= 0x80; distinct by bytes",
+	"fixed list first (every known meta type x payloads of 1..5 bytes x one byte at the edges of the signed and unsigned 7- and 8-bit ranges), then rapid: byte strings of length 4..64 biased to start with each status class (channel kinds, F0..F7, real-time, FF + meta type + VLQ length + payload with a declared text length <= 2^16; FF + type + a run of 1..20 continuation bytes as length field; complete frames wrapped in real-time bytes; meta events whose type byte is a status byte and whose payload ends in F7/FF; two frames glued together; runs of one byte class; universal sysex messages such as MTC full frame and MMC commands; text and sequencer-data metas of 1..400 bytes made of one byte class: UTF-8 continuation bytes, lead bytes, one repeated byte, multi-byte runes cut inside a rune, ASCII), plus every message produced by the meta constructors, by MetaUndefined(any type, payload) and by the reader on byte-level generated files; same oracle; non-trivial = first byte >= 0x80; distinct by bytes",
 	func(t *rapid.T) Case {
 		var b []byte
 		frame := func() []byte {
@@ -370,6 +370,35 @@ var long = ev.NewCheck("C08", "strings-4-64",
 	}, run)
 
 func TestPropLongStrings(t *testing.T) { long.Rapid(t, 6000, 60000) }
+
+// TestEnumMetaExtremes: every meta type the library knows, with payloads of 1..5 bytes in which one
+// byte after the other takes the values at the edges of the signed and unsigned 7- and 8-bit ranges
+// (a key signature with -128 accidentals, a time signature with exponent 255, ...). Fixed list,
+// evaluated by shard 0 in both tiers.
+func TestEnumMetaExtremes(t *testing.T) {
+	if ev.Shard() != 0 {
+		return
+	}
+	types := []byte{0x00, 0x01, 0x02, 0x03, 0x04, 0x05, 0x06, 0x07, 0x08, 0x09, 0x20, 0x21, 0x2F, 0x51, 0x54, 0x58, 0x59, 0x7F}
+	edges := []byte{0x00, 0x01, 0x07, 0x08, 0x3F, 0x40, 0x7F, 0x80, 0x81, 0xF8, 0xF9, 0xFE, 0xFF}
+	for _, typ := range types {
+		for n := 1; n <= 5; n++ {
+			for pos := 0; pos < n; pos++ {
+				for _, e := range edges {
+					b := []byte{0xFF, typ, byte(n)}
+					for k := 0; k < n; k++ {
+						b = append(b, 0x01)
+					}
+					b[3+pos] = e
+					long.One(t, Case{b})
+					if t.Failed() {
+						return
+					}
+				}
+			}
+		}
+	}
+}
 
 // messages the reader produces on generated files
 type FileCase struct{ File smfref.File }
